@@ -399,11 +399,59 @@ def check_aggregation(ctx: Ctx) -> None:
     ctx.floor("10.4-scaling", 20)
 
 
+def check_same_point(ctx: Ctx) -> None:
+    """10.3: a function built around another one evaluates the wrapped value and the wrapped Jacobian at the same point.
+
+    For every class of core/mdo_functions and every wrapped function held in an attribute, the (unfolded) argument of
+    its .func/.evaluate calls and of its .jac calls are compared, the method's own parameter renamed to one name.
+    """
+    import re
+
+    from gv.dataflow import SymValues
+
+    n = 0
+    for rel, mod in sorted(ctx.index.modules.items()):
+        if not rel.startswith("core/mdo_functions/"):
+            continue
+        for cn, c in sorted(mod.classes.items()):
+            pts: dict = {}
+            for mn, m in sorted(c.methods.items()):
+                if mn == "__init__" or len(m.args.args) < 2:
+                    continue
+                p = m.args.args[1].arg
+                sv = None
+                for call in walk_body(m):
+                    if isinstance(call, ast.Call) and isinstance(call.func, ast.Attribute) and call.func.attr in ("func", "evaluate", "jac", "_jac", "_func") and call.args:
+                        recv = dotted(call.func.value)
+                        if not recv or not recv.startswith("self."):
+                            continue
+                        sv = sv or SymValues(m)
+                        kind = "J" if "jac" in call.func.attr else "V"
+                        for t in sv.texts(call.args[0]):
+                            pts.setdefault(recv, {}).setdefault(kind, {})[re.sub(rf"\b{re.escape(p)}\b", "_x", t)] = call
+            for recv, d in sorted(pts.items()):
+                if set(d) != {"V", "J"}:
+                    continue
+                n += 1
+                only_j = sorted(set(d["J"]) - set(d["V"]))
+                only_v = sorted(set(d["V"]) - set(d["J"]))
+                node = d["J"][only_j[0]] if only_j else next(iter(d["J"].values()))
+                ctx.ob("10.3-same-point", cname(rel, cn), not only_j and not only_v, f"{recv} is evaluated at {sorted(d['V'])} and differentiated at {sorted(d['J'])}: the Jacobian returned is then not the derivative of the value returned", node=node, stmt=f"{recv}: value and Jacobian at the same point")
+    ctx.floor("10.3-same-point", 7)
+
+
 def run(ctx: Ctx) -> None:
     check_purity(ctx)
+    check_same_point(ctx)
     check_shapes(ctx)
     check_operator_agreement(ctx)
     check_aggregation(ctx)
+    # the normalised twin of a linear function is a composition (f o unnormalise): its coefficients and offset are
+    # those of C01 rule 1.8
+    from gv.props import c01
+    from gv.props.c12 import _Prefixed
+
+    c01.check_linear_normalize(_Prefixed(ctx, "10.5-normalised-linear/"))
 
 
 # ---------------------------------------------------------------------------
